@@ -154,6 +154,8 @@ type domCase struct {
 	custom     [4]int
 	clearFirst bool
 	files      bool // also load through domainset.Config from files
+	reRich     bool // round 6: 2-6 regexp rules from the construct generator
+	reInfos    map[string]reInfo
 }
 
 func drawChain(rt *rapid.T) []string {
@@ -232,6 +234,15 @@ func genDomCase(rt *rapid.T) *domCase {
 	ns := drawSize(rt, "n-suffix", sizeSteps)
 	nk := drawSize(rt, "n-keyword", []int{0, 0, 1, 4, 5, 17})
 	nr := drawSize(rt, "n-regexp", []int{0, 0, 1, 2, 4})
+	// Round 6: a quarter of the cases hold 2-6 regexp rules made of constructs whose meaning depends
+	// on the rule standing alone (regexp_gen_test.go); few keywords there, because a keyword like "."
+	// matches nearly every name and would hide what the expressions decide.
+	c.reRich = rapid.IntRange(0, 3).Draw(rt, "regexp-rich") == 0
+	if c.reRich {
+		nr = rapid.IntRange(2, 6).Draw(rt, "n-regexp-rich")
+		nk = rapid.SampledFrom([]int{0, 0, 0, 1}).Draw(rt, "n-keyword-rich")
+		c.reInfos = map[string]reInfo{}
+	}
 	for _, t := range drawNames(rt, nd) {
 		c.rules = append(c.rules, routex.Rule{Kind: routex.KindDomain, Text: t})
 	}
@@ -241,7 +252,21 @@ func genDomCase(rt *rapid.T) *domCase {
 	for i := 0; i < nk; i++ {
 		c.rules = append(c.rules, routex.Rule{Kind: routex.KindKeyword, Text: rapid.SampledFrom(keywordPool).Draw(rt, "keyword")})
 	}
-	for i := 0; i < nr; i++ {
+	richBadAt := -1
+	if c.reRich && rapid.IntRange(0, 15).Draw(rt, "regexp-rich-bad") == 11 { // rapid favours small values: keep the invalid sets rare
+		richBadAt = rapid.IntRange(0, nr-1).Draw(rt, "regexp-rich-bad-at")
+	}
+	for i := 0; i < nr && c.reRich; i++ {
+		if i == richBadAt {
+			c.badRegex = true
+			c.rules = append(c.rules, routex.Rule{Kind: routex.KindRegexp, Text: rapid.SampledFrom(richBadRegexpPool).Draw(rt, "bad-regexp")})
+			continue
+		}
+		info := drawRichRegexp(rt)
+		c.reInfos[info.text] = info
+		c.rules = append(c.rules, routex.Rule{Kind: routex.KindRegexp, Text: info.text})
+	}
+	for i := 0; i < nr && !c.reRich; i++ {
 		if rapid.IntRange(0, 39).Draw(rt, "regexp-bad") == 0 {
 			c.badRegex = true
 			c.rules = append(c.rules, routex.Rule{Kind: routex.KindRegexp, Text: rapid.SampledFrom(badRegexpPool).Draw(rt, "bad-regexp")})
@@ -287,6 +312,8 @@ func probesFor(rules []routex.Rule) []string {
 		}
 		probes = append(probes, routex.Mutations(rules[i].Text)...)
 	}
+	// Round 6: names in the other letter case, when the set holds regexp rules
+	probes = append(probes, caseSafeProbes(rules)...)
 	return probes
 }
 
@@ -295,9 +322,14 @@ var recDomain = ev.New("C10", "domain-differential",
 		"any insertion order, capacity hint exact/wrong/absent, CRLF, blank and comment lines, optional final newline; probes = all 340 names of <=4 labels + mutations of every rule. "+
 		"Oracle: naive matcher from the README vs text-loaded, gob-loaded, text->gob->text, text->text, gob->gob, file-loaded (text, gob), a Builder assembled from drawn builder types, "+
 		"and every exported builder/matcher constructor per kind (AppendTo result and raw Match). Invalid regexp => every representation must refuse to build. "+
-		"Non-trivial: >=2 rule kinds present and one domain/suffix rule is a proper label-boundary suffix of another; distinct key = rule list + format options").
+		"Round 6: a quarter of the cases hold 2-6 regexp rules built from top-level inline flags ((?i) (?s) (?U) (?m)), top-level alternation with per-alternative anchors, anchors at one end, empty alternatives, (named) capture groups, "+
+		"scoped / mid-rule flag groups and upper-case literals; probes then include every name in upper case and with only its first / last letter in upper case (for whole sets only where no domain/suffix/keyword rule matches the lower-case form). "+
+		"Non-trivial: >=2 rule kinds present and one domain/suffix rule is a proper label-boundary suffix of another, or >=2 regexp rules whose verdicts on the probes differ from the verdicts of the rules joined into one expression / read with hoisted anchors; distinct key = rule list + format options").
 	Require("kinds>=2", "suffix-pair", "n-domain=16", "n-domain=17", "n-domain=100", "n-suffix=4", "n-suffix=5", "n-suffix=100", "n-suffix=0", "n-domain=0",
-		"distinct-domain>64", "distinct-suffix>64", "duplicate-suffix-rules", "empty-label", "trailing-dot", "leading-dot", "crlf", "hint-absent", "hint-exact", "hint-wrong", "comment-or-blank", "bad-regexp-rejected", "file-loaded", "total=0", "matched", "unmatched")
+		"distinct-domain>64", "distinct-suffix>64", "duplicate-suffix-rules", "empty-label", "trailing-dot", "leading-dot", "crlf", "hint-absent", "hint-exact", "hint-wrong", "comment-or-blank", "bad-regexp-rejected", "file-loaded", "total=0", "matched", "unmatched").
+	Require("re>=2", "re-rich-n=2", "re-rich-n=3", "re-rich-n=4", "re-rich-n=5", "re-rich-n=6", "re-flag-i-in-non-last-rule", "re-flag-sUm-in-non-last-rule", "re-top-level-alternation", "re-anchor-one-end",
+		"re-empty-alternative", "re-capture-group", "re-same-group-name-in-two-rules", "re-upper-case-literal", "re-inner-flag-group", "re-joined-rules-would-differ", "re-flag-leak-observable",
+		"re-hoisted-anchors-would-differ", "re-letter-case-decides", "re-rich-bad-rejected")
 
 type namedSet struct {
 	name string
@@ -460,6 +492,7 @@ func checkDomCase(rt fataler, c *domCase, rec *ev.Recorder) {
 	}
 
 	probes := probesFor(c.rules)
+	reProbes := append(slices.Clone(probeNames), caseProbes...)
 	matched, unmatched := 0, 0
 	if !c.badRegex {
 		for _, p := range probes {
@@ -504,7 +537,11 @@ func checkDomCase(rt fataler, c *domCase, rec *ev.Recorder) {
 			continue // no reference matcher for this case
 		}
 		raw, hasRaw := b.(domainset.Matcher)
-		for _, p := range probes {
+		kindProbes := probes
+		if spec.kind == routex.KindRegexp && len(rules) > 0 {
+			kindProbes = reProbes // letter case is defined for regexp rules: all case variants
+		}
+		for _, p := range kindProbes {
 			want := naive.MatchKind(spec.kind, p)
 			got := false
 			for _, m := range ms {
@@ -590,8 +627,49 @@ func checkDomCase(rt fataler, c *domCase, rec *ev.Recorder) {
 			break
 		}
 	}
+	// ---- round 6: what the regexp rules of this case contain and whether the probes would notice
+	// a matcher that does not keep them apart
+	res := routex.OfKind(c.rules, routex.KindRegexp)
+	reNT := false
+	if len(res) >= 2 && !c.badRegex {
+		labels = append(labels, "re>=2")
+		if c.reRich {
+			labels = append(labels, fmt.Sprintf("re-rich-n=%d", len(res)))
+		}
+		m := measureRegexps(res, naive, reProbes)
+		var flagINonLast, flagOtherNonLast, topAlt, oneEnd, emptyAlt, capture, upperLit, innerFlag bool
+		named := 0
+		for i, r := range res {
+			info := c.reInfos[r]
+			if i < len(res)-1 {
+				flagINonLast = flagINonLast || strings.Contains(info.topFlags, "i")
+				flagOtherNonLast = flagOtherNonLast || strings.ContainsAny(info.topFlags, "sUm")
+			}
+			topAlt = topAlt || info.topAlt
+			oneEnd = oneEnd || info.oneEnd
+			emptyAlt = emptyAlt || info.emptyAlt
+			capture = capture || info.capture
+			upperLit = upperLit || info.upperLit
+			innerFlag = innerFlag || info.innerFlag
+			if info.named {
+				named++
+			}
+		}
+		for l, b := range map[string]bool{"re-flag-i-in-non-last-rule": flagINonLast, "re-flag-sUm-in-non-last-rule": flagOtherNonLast, "re-top-level-alternation": topAlt,
+			"re-anchor-one-end": oneEnd, "re-empty-alternative": emptyAlt, "re-capture-group": capture, "re-same-group-name-in-two-rules": named >= 2, "re-upper-case-literal": upperLit,
+			"re-inner-flag-group": innerFlag, "re-joined-rules-would-differ": m.joinDiffers, "re-joined-rules-would-not-compile": m.joinNoCompile,
+			"re-hoisted-anchors-would-differ": m.hoistDiffers, "re-letter-case-decides": m.caseDecides, "re-flag-leak-observable": flagINonLast && m.joinDiffers} {
+			if b {
+				labels = append(labels, l)
+			}
+		}
+		reNT = m.joinDiffers || m.hoistDiffers
+	}
+	if c.badRegex && c.reRich {
+		labels = append(labels, "re-rich-bad-rejected")
+	}
 	sort.Strings(labels)
-	nt := kinds >= 2 && pair && !c.badRegex
+	nt := (kinds >= 2 && pair && !c.badRegex) || reNT
 	h := fnv.New64a()
 	h.Write([]byte(text))
 	rec.Case(fmt.Sprintf("%v|%x|%s", cnt, h.Sum64(), cname), nt, labels...)
